@@ -308,6 +308,40 @@ func checkC15(w *Worker) {
 			}
 		}
 	})
+	// long and short spellings of a flag, and a command and its alias, are the same thing
+	aliasPairs := [][2][]string{
+		{{"reg"}, {"register"}},
+		{{"bal"}, {"balance"}},
+		{{"reg", "-s", "cal"}, {"register", "--single-element", "cal"}},
+		{{"reg", "-f", "r"}, {"reg", "--single-food", "r"}},
+		{{"reg", "-s", "cal", "-g"}, {"reg", "--single-element", "cal", "--group-food"}},
+		{{"bal", "-c"}, {"balance", "--collapse"}},
+		{{"bal", "-s", "cal"}, {"bal", "--single-element", "cal"}},
+		{{"reg", "-b", "2021/01/25"}, {"reg", "--begin", "2021/01/25"}},
+		{{"bal", "-e", "2021/01/24"}, {"bal", "--end", "2021/01/24"}},
+		{{"print", "-b", "2021/01/25", "-e", "2021/01/25"}, {"print", "--begin", "2021/01/25", "--end", "2021/01/25"}},
+		{{"csv", "log", "-b", "2021/01/25"}, {"csv", "log", "--begin", "2021/01/25"}},
+		{{"-b", "2021/01/25", "-e", "2021/01/25", "report", "totals"}, {"--begin", "2021/01/25", "--end", "2021/01/25", "report", "totals"}},
+		{{"lint", "-s", "log.yaml"}, {"lint", "--silent", "log.yaml"}},
+		{{"-d", "food.yaml", "-l", "log.yaml", "reg"}, {"--database", "food.yaml", "--logfile", "log.yaml", "reg"}},
+	}
+	w.Explore("flag-and-command-aliases", ExploreOpts{ShardDepth: 2}, func(x *Exec) {
+		pi := x.Choose(len(aliasPairs), "config:alias-pair")
+		li := x.Choose(2, "input:log")
+		lg := absLog{{Date: "2021/01/24", Entries: []absIng{{"r1", 2}, {"a/b/c", 1}, {"a/b/d", -1}, {"r1", 0.5}}}, {Date: "2021/01/25", Entries: []absIng{{"r1", 1}, {"cal", 3}}}}
+		if li == 1 {
+			lg = absLog{{Date: "2021/01/25", Entries: []absIng{{"u", 1}}}}
+		}
+		files := map[string]string{"food.yaml": bookText, "log.yaml": renderLog(lg)}
+		ca := appCase{Args: append([]string{"--no-color"}, aliasPairs[pi][0]...), Files: files}
+		cb := appCase{Args: append([]string{"--no-color"}, aliasPairs[pi][1]...), Files: files}
+		ra, rb := runApp(ca), runApp(cb)
+		x.Obs(ra.Key(), rb.Key())
+		x.Case(fmt.Sprint(pi, li), true)
+		if ra.Key() != rb.Key() {
+			x.Violate("C15|alias|"+strings.Join(aliasPairs[pi][1], " "), fmt.Sprintf("`%s` prints\n%s\nbut the equivalent spelling `%s` prints\n%s", ca.shell(), ra.String(), cb.shell(), rb.String()), map[string]interface{}{"cmd": cb.shell()})
+		}
+	})
 	// --desc: same rows, non-increasing order
 	w.Explore("descending-order", ExploreOpts{ShardDepth: 3}, func(x *Exec) {
 		which := x.Choose(2, "input:report")
